@@ -54,6 +54,29 @@ Failing(h, e, fl) ==
         ELSE IF n < Len(h) THEN [objectsKept |-> FALSE]
         ELSE IF dupRecv \/ \E i \in argObjs \ {0} : HasDupNames(h[i]) THEN [frame |-> frame]   \* caller-made duplicates: not judged
         ELSE IF \E i \in argObjs \ {0} : i \in fl THEN [frame |-> frame]   \* an object already reported as inconsistent: not judged again
+        ELSE IF op = "Cli" THEN
+          \* the command line is judged with the transition of the library operation it fronts
+          IF a.op \notin CliOps THEN [cliOp |-> FALSE]
+          ELSE IF a.op \in RelationalOps THEN
+            LET mustErr == ErrRel(h, a.op, recv, a.a)
+                x       == newObs[1]
+                \* the receiver as the operation would have left it: the printed rows, under the receiver's own policy
+                asPost  == [x EXCEPT !.pol = h[recv].pol, !.al = IF a.op = "TranslateByReference" THEN AMINOACIDS ELSE x.al]
+            IN
+            [errClass  |-> (e.kind = "err") = mustErr,
+             recvState |-> obs[recv] = h[recv],
+             allowed   |-> IF e.kind = "err" THEN n = Len(h)
+                           ELSE mustErr \/ (Len(newObs) = 1 /\ ((a.op = "Compress" /\ ~a.full) \/
+                                  IF a.op \in CliCreators THEN Allowed(h, a.op, recv, a.a, h[recv], newObs, e.ret)
+                                  ELSE Allowed(h, a.op, recv, a.a, asPost, <<>>, e.ret))),
+             frame |-> \A i \in 1..Len(h) : i <= n /\ obs[i] = h[i], views |-> views]
+          ELSE LET R0 == Step(h, a.op, recv, a.a)
+                   R  == CliOf(h[recv], R0) IN
+          [errClass  |-> (e.kind = "err") = R.err,
+           recvState |-> obs[recv] = h[recv],
+           created   |-> IF R.err \/ e.kind = "err" THEN n = Len(h) ELSE (~R.j) \/ newObs = R.new,
+           ret       |-> R.err \/ e.kind = "err" \/ ~R.j \/ ~a.full \/ RetOK(a.op, a.a, R.ret, e.ret),
+           frame |-> \A i \in 1..Len(h) : i <= n /\ obs[i] = h[i], views |-> (~R.j) \/ views]
         ELSE IF op \in RelationalOps THEN
           LET mustErr == ErrRel(h, op, recv, a) IN
           [errClass |-> (e.kind = "err") = mustErr,
@@ -66,6 +89,7 @@ Failing(h, e, fl) ==
            recvState |-> recv = 0 \/ ~R.j \/ obs[recv] = R.o,
            created   |-> IF R.err \/ e.kind = "err" THEN n = Len(h) ELSE newObs = R.new,
            ret       |-> R.err \/ e.kind = "err" \/ ~R.j \/ RetOK(op, a, R.ret, e.ret),
+           folded    |-> R.err \/ e.kind = "err" \/ ~R.j \/ FoldedOK(op, a, R.ret, e.ret),
            frame |-> frame, views |-> (~R.j) \/ views, rect |-> (~R.j) \/ rect]
   IN {k \in DOMAIN checks : ~checks[k]}
 
@@ -84,7 +108,10 @@ Init == l = 1 /\ heap = <<>> /\ bad = <<>> /\ memo = <<>> /\ sup = <<>> /\ stats
 StepEvent ==
   /\ l <= Len(Trace)
   /\ LET e == Trace[l] IN
-     IF e.op = "Reset" THEN heap' = <<>> /\ flagged' = {} /\ UNCHANGED <<bad, memo, sup, stats>>
+     \* (repeated calls are compared within a history: the memo starts afresh, or a long trace would pay for all its past)
+     IF e.op = "Reset" THEN heap' = <<>> /\ flagged' = {} /\ memo' = <<>> /\ UNCHANGED <<bad, sup, stats>>
+     ELSE IF e.op = "Drop" THEN      \* the harness forgets the object read back from the command line
+       heap' = SubSeq(heap, 1, Len(heap) - 1) /\ flagged' = flagged \ {Len(heap)} /\ UNCHANGED <<bad, memo, sup, stats>>
      ELSE
        LET n    == Len(e.objs)
            pols == PolAfter(heap, e.op, e.recv, e.a, n)
